@@ -433,6 +433,17 @@ def c10_4(c: Ctx) -> None:
     ch = loop.target.id
     head = g.nodes_of(loop, ('for',))[0]
     inner = [n for n in ast.walk(loop) if isinstance(n, ast.For) and n is not loop and U(n.iter) == f'{ch}.event_results.values()']
+    # the pending results may be collected first (`todo = [r for r in child.event_results.values() if r.status == 'pending']`) and then looped over: the filter is the guard
+    prefiltered: dict[int, ast.AST] = {}
+    for n in ast.walk(loop):
+        if isinstance(n, ast.For) and n is not loop and isinstance(n.iter, ast.Name) and isinstance(n.target, ast.Name):
+            src = q.deref(u, n.iter)
+            if isinstance(src, ast.ListComp) and len(src.generators) == 1 and U(src.generators[0].iter) == f'{ch}.event_results.values()' and isinstance(src.generators[0].target, ast.Name) \
+                    and U(src.elt) == src.generators[0].target.id and len(src.generators[0].ifs) == 1 and not any(isinstance(x, ast.Await) for b in n.body for x in ast.walk(b)):
+                cond = U(src.generators[0].ifs[0]).replace(f'{src.generators[0].target.id}.', f'{n.target.id}.')
+                if cond in (f"{n.target.id}.status == 'pending'", f"'pending' == {n.target.id}.status"):
+                    prefiltered[id(n)] = n
+                    inner.append(n)
     if inner:
         c.ok(where(u, inner[0]), f'every result of every child is visited ({U(inner[0].iter)})')
     else:
@@ -467,6 +478,12 @@ def c10_4(c: Ctx) -> None:
         r = U(call.func.value)
         atom = eq_atom(f'{r}.status', "'pending'")
         facts = Facts(lambda a: a == atom, cg=c.cg, unit=u)
+        lp_ = q.enclosing(call, (ast.For,))
+        if lp_ is not None and id(lp_) in prefiltered and isinstance(lp_.target, ast.Name) and lp_.target.id == r:
+            c.ok(where(u, call), f"{r}.update(error=...) only for results that were 'pending' when they were collected (nothing suspends in between)")
+            if q.kw(call, 'error') is None:
+                c.fail(u, f'{U(call)[:60]} does not record an error', 'cancelled child results do not become terminal', node=call)
+            continue
         for n in g.nodes_of(q.stmt_of(call)):
             p = q.guard_search(g, n, f"{r}.status == 'pending'", facts)
             if p is None:
@@ -475,6 +492,22 @@ def c10_4(c: Ctx) -> None:
                 c.fail(u, f"{r}.update(...) not guarded by {r}.status == 'pending'", 'a timeout rewrites child results that already started or finished', node=call, witness=c.path(g.entry, p))
         if q.kw(call, 'error') is None:
             c.fail(u, f'{U(call)[:60]} does not record an error', 'cancelled child results do not become terminal', node=call)
+
+
+def update_only_on_collected_pending(u: Unit, call: ast.Call) -> bool:
+    """`todo = [r for r in X.event_results.values() if r.status == 'pending']` / `for r in todo: r.update(..)` with nothing suspending in the loop: the update is applied only to
+    results that were pending when they were collected."""
+    lp = q.enclosing(call, (ast.For,))
+    if lp is None or not isinstance(lp.iter, ast.Name) or not isinstance(lp.target, ast.Name) or U(call.func.value) != lp.target.id:
+        return False
+    src = q.deref(u, lp.iter)
+    if not (isinstance(src, ast.ListComp) and len(src.generators) == 1 and U(src.generators[0].iter).endswith('.event_results.values()') and isinstance(src.generators[0].target, ast.Name)
+            and U(src.elt) == src.generators[0].target.id and len(src.generators[0].ifs) == 1):
+        return False
+    if any(isinstance(x, ast.Await) for b in lp.body for x in ast.walk(b)):
+        return False
+    v = src.generators[0].target.id
+    return U(src.generators[0].ifs[0]) in (f"{v}.status == 'pending'", f"'pending' == {v}.status")
 
 
 def is_task_done(n, qexpr: str | None = None) -> bool:
